@@ -6,6 +6,7 @@ import numpy as np
 
 CAUSES = {1: RuntimeWarning, 2: IndexError, 10: ZeroDivisionError, 11: KeyError, 12: RuntimeError, 13: ValueError, 14: FloatingPointError}
 CAUSE_TAG = {v.__name__: k for k, v in CAUSES.items()}
+CAUSE_TAG['UserWarning'] = 1          # the model has one tag for 'the warning raised by the filter', whatever its category
 
 
 def unhex(s):
@@ -19,9 +20,11 @@ def run_actions(model, t, acts):
             model.__dict__['_V%d' % a[1]][t] = unhex(a[2])
         elif k == 'warnset':
             before = float(model.__dict__['_V%d' % a[1]][t])
+            # optional 4th field 'user': the warning is a UserWarning (e.g. issued by a user-supplied helper), not NumPy's RuntimeWarning
+            category = UserWarning if len(a) > 3 and a[3] == 'user' else RuntimeWarning
             try:
-                warnings.warn('scripted numerical warning', RuntimeWarning)
-            except RuntimeWarning:
+                warnings.warn('scripted numerical warning', category)
+            except Warning:
                 # the filter turned the warning into an exception: remember what the cell held (oracle: it must stay)
                 model.__dict__['_blocked'].append([a[1], int(t), before.hex() if before == before and abs(before) != float('inf') else repr(before)])
                 raise
